@@ -270,8 +270,14 @@ def check(run):
     flip_everywhere(run, repo)
     rp = repo.func(K.PY_U, 'random_pair')
     wh = [st for st, _ in walk(rp.node) if isinstance(st, ast.While)]
-    run.check(len(wh) == 1 and norm(wh[0].test).replace(' ', '') == '(g1==0).all()', 'R11.resample', rp, 'while (g1 == 0).all()', 'the identity string is rejected and g1 resampled')
-    fr = [st for st, _ in walk(rp.node) if isinstance(st, ast.Assign) and norm(st.value).replace(' ', '') == 'front(g1)']
+    from ..names import allzero_polarity, return_names
+    first = (return_names(rp) or ['g1'])[0] or 'g1'
+    pol = allzero_polarity(wh[0].test, first) if len(wh) == 1 else None
+    if len(wh) == 1 and pol is None:
+        run.undecided('R11.resample', rp, wh[0].test, 'the resampling test is not in a form this rule reads')
+    else:
+        run.check(len(wh) == 1 and pol is True, 'R11.resample', rp, 'while (g1 == 0).all()', 'the identity string is rejected and g1 resampled (the loop must run exactly while the first string is all zero)')
+    fr = [st for st, _ in walk(rp.node) if isinstance(st, ast.Assign) and norm(st.value).replace(' ', '') == 'front(%s)' % first]
     run.check(len(fr) == 1, 'R11.resample', rp, 'i = front(g1)', 'the flip acts at the first nontrivial site of g1')
     ft = repo.func(K.PY_U, 'front')
     conds = [norm(st.test).replace(' ', '') for st, _ in walk(ft.node) if isinstance(st, ast.If)]
